@@ -131,6 +131,11 @@ def rule_unchecked(fx, rep):
             if not oks:
                 continue
             pth, c = oks[0]
+            lost = [e for e in pth.events if e[0] == 'source-bits-discarded']
+            rep.check(len(lost) == 1 and lost[0][1] == [], 'TABLE', inst + ':no-input-bit-discarded',
+                      'the coordinates are read from the input bytes with only the three (already decided) flag bits masked',
+                      'input bits are cleared without having been tested: %s (byte index, bit mask) -- encodings differing in those bits decode identically'
+                      % (lost[0][1] if lost else 'no read',), where, construct=path)
             reads = [e for e in pth.events if e[0] == 'read_be']
             rep.check(len(reads) == ncoord and ncoord * 48 == nbytes, 'BYTES', inst + ':reads', '%d big-endian reads of 48 bytes = %d' % (ncoord, nbytes),
                       '%d reads of 48 bytes from a %d-byte buffer (read_be().unwrap() could fail)' % (len(reads), nbytes), where, construct=path)
@@ -433,8 +438,9 @@ def rule_root_selection(fx, rep, g, aff):
             want = (negy if y_smaller else y) if greatest else (y if y_smaller else negy)
             if yy != want or xx != Lin.atom('x') or not (isinstance(inf, Int) and inf.v == 0):
                 ok, why = False, 'greatest=%d, y<-y=%s: returns (x=%r, y=%r, inf=%r)' % (greatest, y_smaller, xx, yy, inf)
-            if x[3] not in ('bls12_381::fq::Fq', 'bls12_381::fq2::Fq2'):
-                ok, why = False, 'comparison on type %s' % (x[3],)
+            base = 'bls12_381::fq::Fq' if g == 'G1' else 'bls12_381::fq2::Fq2'
+            if x[3] != base:
+                ok, why = False, 'comparison on type %s, the coordinate type is %s' % (x[3], base)
     rep.check(ok, 'GUARD', '%s:root-selection' % g, 'greatest selects the lexicographically larger of y, -y; otherwise the smaller; x unchanged; finite', why, where, construct=cp)
     # x^3 + b and sqrt in the parent
     def tr2(I, fr, t, c, pth):
